@@ -42,18 +42,35 @@ package connectconformance
 //@   requires tt != nil
 //@   modifies testTrie.present, testTrie.children, map[string]*testTrie
 
+// add never replaces an edge that is already there (the patterns below it stay in the trie):
+// whatever is stored into a node's children goes under a key that had no child.
 //@ func (*testTrie).add
 //@   requires tt != nil
 //@   modifies testTrie.present, testTrie.children, map[string]*testTrie
 //@   ensures len(components) == 0 ==> tt.present
+//@   assert_at "tt.children["#*: !atpre(has(tt.children, first))
+//@   assert_at "child.add(rest)": child != nil && has(tt.children, first) && tt.children[first] == child
 
 //@ func (*testTrie).allUnmatched
 //@   requires tt != nil
 //@   ensures result != nil
 
+// findUnmatched reports the node's own pattern when it is present and was never matched,
+// never removes a report, and walks into every child whatever the node's own state is
+// (ghost fuVisited: the nodes the walk has been called on).
+//@ ghost fuVisited: *testTrie -> bool
 //@ func (*testTrie).findUnmatched
 //@   requires tt != nil && unmatched != nil
-//@   modifies map[string]struct{}
+//@   modifies map[string]struct{}, fuVisited
+//@   assume_ensures fuVisited[tt] //# ghost bookkeeping: this call visited tt
+//@   ensures @self tt.present && atomicI32[fieldaddr(tt, matched)] == 0 ==> has(unmatched, prefix)
+//@   ensures @keeps forall k string :: old(has(unmatched, k)) ==> has(unmatched, k)
+//@   ensures @monotone forall n *testTrie :: old(fuVisited[n]) ==> fuVisited[n]
+//@   ensures @all-children forall next string :: has(tt.children, next) ==> fuVisited[tt.children[next]]
+//@   loop 0: invariant forall k string :: old(has(unmatched, k)) ==> has(unmatched, k)
+//@           invariant tt.present && atomicI32[fieldaddr(tt, matched)] == 0 ==> has(unmatched, prefix)
+//@           invariant forall n *testTrie :: old(fuVisited[n]) ==> fuVisited[n]
+//@           invariant forall next string :: has(tt.children, next) && rangeidx(next) < rangepos ==> fuVisited[tt.children[next]]
 
 //@ func (*testTrie).length
 //@   requires tt != nil
